@@ -1041,7 +1041,10 @@ def _ppo_battery(agent, case, rec, space, gen, rng):
 
         if isinstance(e, CaseTimeout):
             raise
-        rec.crash(e, "reeval_crash", "PPO.learn", dist=kind, ncomp=ncomp)
+        if _diverged(agent):
+            _note_divergence(rec, e, "PPO.learn")
+        else:
+            rec.crash(e, "reeval_crash", "PPO.learn", dist=kind, ncomp=ncomp)
 
 
 # ------------------------------------------------------------------ policies after network-level operations
@@ -1281,7 +1284,35 @@ def _run_ippo(case, rec):
 
         if isinstance(e, CaseTimeout):
             raise
-        rec.crash(e, "reeval_crash", "IPPO.learn", dist=kind, ncomp=ncomp)
+        if _diverged(agent):
+            _note_divergence(rec, e, "IPPO.learn")
+        else:
+            rec.crash(e, "reeval_crash", "IPPO.learn", dist=kind, ncomp=ncomp)
+
+
+def _diverged(agent) -> bool:
+    """True iff an optimizer step has left non-finite numbers in a policy network: the exception that follows (NaN
+    log-std handed to torch.normal ...) is the optimisation diverging under the extreme weight scales / log-stds this
+    workload feeds, which the statement does not speak about.  Every log-probability computed BEFORE that step has
+    already been judged by the forward / re-evaluation monitors."""
+    import torch
+    import torch.nn as nn
+
+    nets = []
+    for name in ("actor", "actors"):
+        v = getattr(agent, name, None)
+        if v is not None:
+            nets += list(v) if isinstance(v, (list, tuple)) else [v]
+    for net in nets:
+        for p in nn.Module.parameters(net):
+            if not bool(torch.isfinite(p).all()):
+                return True
+    return False
+
+
+def _note_divergence(rec, e, where):
+    rec.hit("learn_diverged_to_nonfinite_parameters(info)")
+    rec.extra.setdefault("learn_diverged", {"where": where, "exception": f"{type(e).__name__}: {e}"[:160]})
 
 
 def run_case(case):
